@@ -1138,6 +1138,14 @@ fn do_claim(run: &mut Run, ctx: &mut Ctx, si: usize, h: [u8; 32], known_tlvs: bo
 			run.aborted = Some("library-debug-assert:claim-mixed-total-value-received");
 			return Ok(());
 		}
+		// `debug_assert!(.., "HTLCs should be sorted")` in PaymentId::for_inbound_from_htlcs: claim_funds on a set
+		// that never completed (parts are only sorted on completion) whose parts arrived out of (channel id,
+		// htlc id) order. Same category: release builds just derive an id from the unsorted list.
+		let incomplete = run.model.sets.get(&h).map(|s| s.shown.as_ref().map(|sh| sh.parts != s.parts.iter().map(|(i, _)| *i).collect::<Vec<_>>()).unwrap_or(true)).unwrap_or(false);
+		if incomplete && msg.contains("HTLCs should be sorted") {
+			run.aborted = Some("library-debug-assert:claim-unsorted-incomplete-set");
+			return Ok(());
+		}
 		return Err(fail("panic", format!("claim_funds panicked at {}: {}", loc, msg)).with_key(format!("panic@{}", loc)));
 	}
 	set_last_panic(saved);
